@@ -49,7 +49,7 @@ class SqlSeam:
         conn = _real_connect(database, *a, **kw)
         return ConnProxy(self, conn, str(database))
 
-    def on_tick(self, kind, sql, path):
+    def on_tick(self, kind, sql, path, conn=None):
         if not self.enabled:
             return
         self.tick += 1
@@ -72,6 +72,14 @@ class SqlSeam:
                     self.enabled = True
                 return
             msg = self.fault_kind.split(":", 1)[1]
+            if self.fault_kind.startswith("error-rollback:") and conn is not None:
+                # what the engine itself does on SQLITE_FULL / IOERR / NOMEM / INTERRUPT in the
+                # middle of a write: the whole transaction is rolled back before the error
+                # is reported (a later statement on this connection starts a NEW transaction)
+                try:
+                    conn.rollback()
+                except Exception:
+                    pass
             raise sqlite3.OperationalError(msg)
 
     def snapshot(self, path):
@@ -94,12 +102,12 @@ class CursorProxy:
         object.__setattr__(self, "_path", path)
 
     def execute(self, sql, *a):
-        self._seam.on_tick("stmt", sql, self._path)
+        self._seam.on_tick("stmt", sql, self._path, getattr(self._cur, "connection", None))
         self._cur.execute(sql, *a)
         return self
 
     def executemany(self, sql, *a):
-        self._seam.on_tick("stmt", sql, self._path)
+        self._seam.on_tick("stmt", sql, self._path, getattr(self._cur, "connection", None))
         self._cur.executemany(sql, *a)
         return self
 
@@ -128,11 +136,11 @@ class ConnProxy:
         return CursorProxy(self._seam, self._conn.cursor(*a, **kw), self._path)
 
     def execute(self, sql, *a):
-        self._seam.on_tick("stmt", sql, self._path)
+        self._seam.on_tick("stmt", sql, self._path, self._conn)
         return CursorProxy(self._seam, self._conn.execute(sql, *a), self._path)
 
     def executemany(self, sql, *a):
-        self._seam.on_tick("stmt", sql, self._path)
+        self._seam.on_tick("stmt", sql, self._path, self._conn)
         return CursorProxy(self._seam, self._conn.executemany(sql, *a), self._path)
 
     def executescript(self, sql):
@@ -338,8 +346,52 @@ class WriteFaultFile:
         self._seam = seam
         self._f = f
         self._path = path
+        # a planned 'flush' fault: behave like a buffered writer whose tail (the last <= 8 KiB,
+        # i.e. everything for small files) only reaches the disk when the file is flushed or
+        # closed - and that is where the error is reported
+        self._held = bytearray() if any(f_["op"] == "flush" and (f_.get("match") is None or
+                                                                  f_["match"] in path)
+                                        for f_ in seam.plan) else None
+        self._closed = False
+
+    def _drain(self, final):
+        if self._held is None:
+            return
+        if final:
+            flt = self._seam._take("flush", self._path)
+            if flt is not None:
+                k = min(len(self._held), int(flt.get("after", 0)))
+                if k:
+                    self._f.write(bytes(self._held[:k]))
+                self._held = None
+                try:
+                    self._f.close()
+                except Exception:
+                    pass
+                raise self._seam._err(flt, self._path)
+            self._f.write(bytes(self._held))
+            self._held = bytearray()
+        else:
+            while len(self._held) > 8192:
+                self._f.write(bytes(self._held[:8192]))
+                del self._held[:8192]
+
+    def flush(self):
+        self._drain(True)
+        return self._f.flush()
+
+    def close(self):
+        if self._closed:
+            return
+        self._closed = True
+        self._drain(True)
+        return self._f.close()
 
     def write(self, data):
+        if self._held is not None:
+            self._held += bytes(data)
+            self._drain(False)
+            return len(data)
         flt = self._seam._take("write", self._path)
         if flt is not None:
             k = min(len(data), int(flt.get("after", 0)))
@@ -358,6 +410,9 @@ class WriteFaultFile:
         return self
 
     def __exit__(self, *a):
+        if self._held is not None and not self._closed:
+            self.close()
+            return False
         return self._f.__exit__(*a)
 
     def __iter__(self):
